@@ -1,5 +1,6 @@
 SPECIFICATION Spec
 CONSTANTS
+  WithDerive = TRUE
   Contents <- TheContents
   EntryPoints <- TheEntryPoints
   Extra <- TheExtra
